@@ -20,6 +20,8 @@ import os
 import queue
 import struct
 import glob
+import sys
+import threading
 
 from core import coqrun
 
@@ -119,6 +121,13 @@ class Sock:
         self.takes = list(takes or [])   # bytes the k-th send call of one operation takes (then: everything)
         self.ti = 0
         self.closed = False
+        self.piece = 0          # > 0: every send call takes at most this many bytes
+        self.sched = None       # deterministic scheduler: every send call is a scheduling point
+        self.new_op = {}
+        self.order = []         # writer index of each frame, in the order of the frames' first send call
+
+    def connect(self, addr):
+        pass
 
     def recv(self, n):
         self.recv_sizes.append(n)
@@ -136,7 +145,15 @@ class Sock:
     def send(self, d):
         d = bytes(d)
         n = len(d)
-        if self.ti < len(self.takes):
+        if self.sched is not None:
+            i = self.sched.me()
+            self.sched.yield_point()            # any other runnable thread may go first
+            if self.new_op.get(i):
+                self.order.append(i)
+                self.new_op[i] = False
+        if self.piece:
+            n = min(n, self.piece)
+        elif self.ti < len(self.takes):
             n = min(n, self.takes[self.ti])
         self.ti += 1
         self.sent.append(d[:n])
@@ -173,10 +190,143 @@ def _mods():
     return cpx, tr
 
 
+class _Stuck(BaseException):
+    pass
+
+
+_ACTIVE = {'sched': None}
+
+
+class Sched:
+    """Deterministic cooperative scheduler for a few real threads: exactly one runs; at every scheduling point (a send
+    call on the scripted socket, a contended lock) the next runnable thread is taken from the schedule."""
+
+    def __init__(self, n, schedule):
+        self.cv = threading.Condition()
+        self.state = ['ready'] * n
+        self.cur = None
+        self.schedule = list(schedule)
+        self.k = 0
+        self.ids = {}
+        self.stuck = False
+
+    def me(self):
+        return self.ids.get(threading.get_ident())
+
+    def _choose(self):
+        run = [i for i, st in enumerate(self.state) if st == 'ready']
+        if not run:
+            self.cur = None
+        else:
+            c = self.schedule[self.k] if self.k < len(self.schedule) else 0
+            self.k += 1
+            self.cur = run[c % len(run)]
+        self.cv.notify_all()
+
+    def _wait_turn(self, i):
+        while self.cur != i:
+            if not self.cv.wait(3):
+                self.stuck = True
+                raise _Stuck()
+
+    def enter(self, i):
+        with self.cv:
+            self.ids[threading.get_ident()] = i
+            self._wait_turn(i)
+
+    def yield_point(self):
+        i = self.me()
+        if i is None:
+            return
+        with self.cv:
+            self._choose()
+            self._wait_turn(i)
+
+    def finish(self, i):
+        with self.cv:
+            self.state[i] = 'done'
+            self._choose()
+
+    def go(self):
+        with self.cv:
+            self._choose()
+
+    def wait_all(self, timeout=6):
+        with self.cv:
+            return self.cv.wait_for(lambda: all(st == 'done' for st in self.state), timeout)
+
+
+class DetLock:
+    """threading.Lock as the transports module sees it (`from threading import Lock` is rebound in the harness process):
+    cooperative under a Sched (a contended acquire hands the baton on), otherwise an acquire that would block raises."""
+
+    def __init__(self):
+        self.held = False
+        self.waiters = set()
+
+    def acquire(self, blocking=True, timeout=-1):
+        sch = _ACTIVE['sched']
+        i = sch.me() if sch is not None else None
+        if i is None:
+            if self.held:
+                raise _WouldBlock()
+            self.held = True
+            return True
+        with sch.cv:
+            while self.held:
+                sch.state[i] = 'blocked'
+                self.waiters.add(i)
+                sch._choose()
+                sch._wait_turn(i)
+            self.held = True
+        return True
+
+    def release(self):
+        if not self.held:
+            raise RuntimeError('release unlocked lock')
+        sch = _ACTIVE['sched']
+        if sch is not None and sch.me() is not None:
+            with sch.cv:
+                self.held = False
+                for w in self.waiters:
+                    sch.state[w] = 'ready'
+                self.waiters.clear()
+        else:
+            self.held = False
+
+    def locked(self):
+        return self.held
+
+    def __enter__(self):
+        self.acquire()
+        return self
+
+    def __exit__(self, *a):
+        self.release()
+
+
+class _FakeSocketModule:
+    """stands in for the `socket` module inside cflib.cpx.transports: SocketTransport's own constructor/connect run"""
+    AF_INET, SOCK_STREAM, SHUT_WR = 2, 1, 1
+    next_sock = None
+
+    @classmethod
+    def socket(cls, *a, **k):
+        return cls.next_sock
+
+
 def _transport(chunks, takes=None):
+    """a real SocketTransport, built by its own constructor, connected to the scripted socket"""
     cpx, tr = _mods()
-    t = object.__new__(tr.SocketTransport)
-    t._socket = Sock(chunks, takes)
+    tr.socket = _FakeSocketModule
+    tr.Lock = DetLock
+    _FakeSocketModule.next_sock = Sock(chunks, takes)
+    out = sys.stdout
+    sys.stdout = io.StringIO()
+    try:
+        t = tr.SocketTransport('scripted', 5000)
+    finally:
+        sys.stdout = out
     return t
 
 
@@ -568,6 +718,62 @@ def impl_cpx_session(chunks, takes, events):
     return out, obs, {'thread_alive_after': router.is_alive(), 'sock': sock, 'router': router}
 
 
+# ---- several threads sending on one transport
+def _writer_expected(op):
+    """(src, dst, fn, last, ver, payload) the peer must see for a writer's operation"""
+    if op[0] == 'cpx':
+        a = op[1]
+        return (a[0], a[1], a[2], a[3], 0, list(a[4]))
+    return (3, 1, 3, 0, 0, [((op[1] & 15) << 4) | 12 | (op[2] & 3)] + list(op[3]))
+
+
+def impl_writers(writers, piece, schedule):
+    """writers: list (one per thread) of operations ['cpx', pkt] (CPX.sendPacket) or ['crtp', port, chan, data]
+    (TcpDriver.send_packet), all on ONE real SocketTransport; every send call of the scripted socket is a scheduling point."""
+    t = _transport([])
+    sock = t._socket
+    sock.piece = piece
+    with _quiet():
+        drv, _, c = _driver('tcp', t)
+    sch = Sched(len(writers), schedule)
+    errors = []
+
+    def run(i):
+        try:
+            sch.enter(i)
+            for op in writers[i]:
+                sock.new_op[i] = True
+                if op[0] == 'cpx':
+                    c.sendPacket(make_packet(*op[1]))
+                else:
+                    drv.send_packet(_crtp(0, op[1], op[2], op[3]))
+        except _Stuck:
+            errors.append('thread %d stuck' % i)
+        except Exception as e:  # noqa
+            errors.append('thread %d: %r' % (i, e))
+        finally:
+            try:
+                sch.finish(i)
+            except _Stuck:
+                pass
+    ths = [threading.Thread(target=run, args=(i,), daemon=True) for i in range(len(writers))]
+    sock.sched = sch
+    _ACTIVE['sched'] = sch
+    try:
+        with _quiet():
+            for th in ths:
+                th.start()
+            while len(sch.ids) < len(ths) and not sch.stuck:     # everybody parked at the start line
+                threading.Event().wait(0.0002)
+            sch.go()
+            if not sch.wait_all():
+                errors.append('schedule did not complete')
+    finally:
+        _ACTIVE['sched'] = None
+        sock.sched = None
+    return sock.stream(), list(sock.order), errors
+
+
 # ---- UARTTransport (serial path)
 class FakeSerial:
     """pyserial port with timeout=None: read(n) returns exactly n bytes (here: raises when the script is exhausted)"""
@@ -931,7 +1137,7 @@ def tie(ctx):
     dist['short_streams_all_cuts'] = [(len(s['stream']), s['fragmentations']) for s in shorts]
 
     # ---- E. router on transport: random packet lists (some malformed frames), random fragmentation, random script
-    n_sys = ctx.scale(700, 12000)
+    n_sys = ctx.scale(500, 12000)
     terms, exp, cases = [], [], []
     kinds = {}
     for c in _corpus():
@@ -1076,6 +1282,40 @@ def tie(ctx):
     dist['cpx_sessions'] = n_c
     dist['cpx_event_kinds'] = ekinds
 
+    # ---- W. two or three threads sending on one transport (CPX.sendPacket and TcpDriver.send_packet), scheduled at every
+    #         send call: the model must accept the observed order of frames and the stream must be exactly those frames
+    def rand_writers():
+        ws = []
+        for w in range(rng.choice([2, 2, 3])):
+            ops = []
+            for k in range(rng.randrange(1, 4)):
+                body = [w, k] + [rng.randrange(256) for _ in range(rng.choice([0, 1, 3, 8]))]
+                if rng.random() < 0.5:
+                    ops.append(['crtp', rng.randrange(16), rng.randrange(4), body])
+                else:
+                    ops.append(['cpx', [rng.choice(TARGETS), rng.choice(TARGETS), rng.choice(FUNCTIONS), rng.randrange(2), body]])
+            ws.append(ops)
+        return ws
+    terms, exp, wcs2 = [], [], []
+    for i in range(ctx.scale(150, 2500)):
+        ws = rand_writers()
+        piece = rng.choice([0, 0, 1, 2, 3, 5])
+        sched_ = [rng.randrange(3) for _ in range(rng.randrange(0, 14))]
+        stream, order, errs = impl_writers(ws, piece, sched_)
+        pss = '[' + '; '.join('[' + '; '.join('mkp %d %d %d %d 0 %d %s' % (e[0], e[1], e[2], e[3], len(e[5]), coqrun.zlist(e[5]))
+                                              for e in map(_writer_expected, ops)) + ']' for ops in ws) + ']'
+        terms.append('writers_case %s %s %s' % (pss, coqrun.zlist(order), coqrun.zlist(stream)))
+        nops = sum(len(o) for o in ws)
+        r = impl_read_n([stream], nops)[0] if stream else [0]
+        exp.append([1, 1] + _unflat_concat(r))
+        wcs2.append({'what': 'stream written by concurrent senders is not an interleaving of whole frames (model rejects the trace)',
+                     'kind': 'writers', 'writers': ws, 'piece': piece, 'schedule': sched_, 'stream': list(stream), 'order': order})
+        if errs:
+            dis.append(dict(wcs2[-1], what='sender threads did not complete: %s' % errs[:2]))
+            break
+    run_blocks('c18v', terms, exp, lambda bi: wcs2[bi], 40)
+    dist['concurrent_writer_cases'] = len(wcs2)
+
     # ---- G. UARTTransport (serial path): sessions of readPacket / writePacket over a scripted port
     n_u = ctx.scale(250, 4000)
     terms, exp, ucs = [], [], []
@@ -1148,6 +1388,16 @@ def _h64(m, l):
 
 def _hh(l):
     return [len(l), _h64(1000003, l), _h64(6364136223846793005, l)]
+
+
+def _unflat_concat(r):
+    """impl_read_n output [pending, len1, x.., len2, ..] -> concatenation of the encoded results (no length prefixes)"""
+    out, i = [], 1
+    while i < len(r):
+        n = r[i]
+        out += r[i + 1:i + 1 + n]
+        i += 1 + n
+    return out
 
 
 def _hist(xs):
@@ -1429,7 +1679,32 @@ def _check_cpx_facade(pkts, cuts, takes, sends, trans):
     return None
 
 
+def _check_writers(writers, piece, schedule):
+    """several threads send on one connection: the peer must see an interleaving of their packet sequences"""
+    stream, order, errs = impl_writers(writers, piece, schedule)
+    if errs:
+        return {'observed': errs[:2]}
+    try:
+        got = _parse_ref(stream)
+    except Exception as e:  # noqa
+        return {'observed': {'stream': list(stream[:120])}, 'detail': 'stream is not a sequence of frames: %r' % (e,),
+                'expected': 'an interleaving of the senders\' frames'}
+    nxt = [0] * len(writers)
+    for k, g in enumerate(got):
+        for w, ops in enumerate(writers):
+            if nxt[w] < len(ops) and _writer_expected(ops[nxt[w]]) == g:
+                nxt[w] += 1
+                break
+        else:
+            return {'observed': {'packet_no': k, 'packet': list(g), 'stream': list(stream[:120])},
+                    'expected': 'the next packet of one of the senders', 'detail': 'a frame was torn by another sender'}
+    if nxt != [len(o) for o in writers]:
+        return {'observed': {'delivered_per_sender': nxt}, 'expected': [len(o) for o in writers]}
+    return None
+
+
 _CHECKS = {
+    'concurrent_writers_tear_frames': lambda c: _check_writers(c['writers'], c['piece'], c['schedule']),
     'short_send_loses_bytes': lambda c: _check_short_send(c['packets'], c['takes'], c['cuts']),
     'stale_length_misframes': lambda c: _check_stale_length(c['packet'], c['new_data'], c['cuts']),
     'uart_oversize_wedges_link': lambda c: _check_uart_oversize(c['big'], c['then']),
@@ -1486,7 +1761,7 @@ def oracle(ctx, deep=False):
     def chk(cls, case):
         nonlocal n
         n += 1
-        if cls in seen and (not deep or cls == 'cpx_facade_violated'):     # (a failing facade session costs join timeouts)
+        if cls in seen and (not deep or cls in ('cpx_facade_violated', 'concurrent_writers_tear_frames')):     # (a failing facade session costs join timeouts)
             return
         f = _run_check(cls, case)
         if f is not None:
@@ -1620,6 +1895,23 @@ def oracle(ctx, deep=False):
                                     'trans': [3, 1, rng.choice([f for f in FUNCTIONS if f not in fs]), 0, [rng.randrange(256)]]})
     for n_big in (99, 150, 98):
         chk('uart_oversize_wedges_link', {'big': n_big, 'then': [5, 2, [1, 2, 3]]})
+    # 5c. several sender threads on one transport; smallest cases first (all schedules of length <= 4 for two one-packet senders)
+    two = [[['crtp', 5, 2, [0, 0]]], [['cpx', [3, 4, 5, 0, [1, 0]]]]]
+    for piece in (0, 2):
+        for n_s in range(0, 5):
+            for sc in itertools.product(range(2), repeat=n_s):
+                chk('concurrent_writers_tear_frames', {'writers': two, 'piece': piece, 'schedule': list(sc)})
+    for _ in range(ctx.scale(250, 4000)):
+        ws = []
+        for w in range(rng.choice([2, 2, 3])):
+            ops = []
+            for k in range(rng.randrange(1, 4)):
+                body = [w, k] + [rng.randrange(256) for _ in range(rng.choice([0, 1, 3, 8]))]
+                ops.append(['crtp', rng.randrange(16), rng.randrange(4), body] if rng.random() < 0.5 else
+                           ['cpx', [rng.choice(TARGETS), rng.choice(TARGETS), rng.choice(FUNCTIONS), rng.randrange(2), body]])
+            ws.append(ops)
+        chk('concurrent_writers_tear_frames', {'writers': ws, 'piece': rng.choice([0, 0, 1, 2, 3, 5]),
+                                               'schedule': [rng.randrange(3) for _ in range(rng.randrange(0, 14))]})
     # 6. serial path: UART framing and the tunnel over it (smallest cases first: they become the witness)
     chk('uart_roundtrip_changed', {'args': [3, 1, 3, 0, []]})
     chk('uart_roundtrip_changed', {'args': [4, 2, 15, 1, [255]]})
